@@ -231,7 +231,7 @@ DEFAULT_OPTS = dict(
     enums=True, nested=True, unions=True, dyn_unions=False, ptrs=True, dyn=True, eof=True, floats=True,
     wide=True, wchar=True, leb=True, void=False, multidim=True, aliases=True, consts=True,
     fixed_only=False, null_struct=True, anon=True, named_structs=True, self_ptr=False,
-    expr_rich=False,
+    expr_rich=False, bias=None,
 )
 
 
@@ -475,6 +475,16 @@ class Gen:
             last_top = top and i == nf and not union
             x = r.random()
             fname = self.nm()
+            bias = o.get("bias")
+            if bias == "bits" and o["bits"] and not union and self.chance(0.45):
+                self.bit_run(fields, int_names)
+                continue
+            if bias == "arrays" and self.chance(0.5):
+                x = 0.3  # array of a scalar
+            if bias == "ptrs" and o["ptrs"] and self.chance(0.4):
+                x = 0.7
+            if bias == "unions" and o["unions"] and o["nested"] and depth < o["max_depth"] and self.chance(0.4):
+                x = 0.6
             if x < 0.26:
                 t = self.scalar_node()
                 fields.append(F(fname, t))
@@ -500,7 +510,7 @@ class Gen:
                 else:
                     inner = None
                 if inner is None:
-                    is_union = o["unions"] and self.chance(0.3)
+                    is_union = o["unions"] and self.chance(0.8 if bias == "unions" else 0.3)
                     inner_dyn = allow_dyn and (not is_union or o["dyn_unions"]) and not union
                     inner = self.struct(depth + 1, union=is_union, allow_dyn=inner_dyn)
                     if o["named_structs"] and self.chance(0.25):
